@@ -468,6 +468,7 @@ func (db *DB) SetReadOnly() error {
 	if err := db.ok(); err != nil {
 		return err
 	}
+	verifAt("s.readonly")
 
 	// Lock writer.
 	select {
